@@ -47,6 +47,7 @@ def replay(prop, path):
         if out is not None:
             probs, rc, se = p_tool.run_one(({'tree0': d['tree0'], 'series': d['series']}, d['cfg'], out, d.get('threads', 1), None))
             ws.cleanup_all()
+            probs = [p for p in probs if p[0] != '_rej']
             print('exit status %s; problems: %s' % (rc, probs))
             still = bool(probs)
     elif isinstance(d, dict) and 'F' in d and 'hs' in d:
